@@ -116,6 +116,23 @@ def nth_cond(body, keyword, n):
     raise ValueError("no %d-th %s" % (n, keyword))
 
 
+def guarded_first_cond(loop):
+    """the condition under which the first real `if` of a loop body is reached and taken: every leading
+    `if (G) { continue; }` / `if (G) continue;` contributes !(G) to the conjunction"""
+    guards, pos = [], 0
+    while True:
+        m = re.search(r"\bif\s*\(", loop[pos:])
+        if not m:
+            raise ValueError("no if in the loop")
+        cond, end = balanced(loop, pos + m.end() - 1)
+        tail = loop[end + 1:]
+        g = re.match(r"\s*(\{\s*continue\s*;\s*\}|continue\s*;)", tail)
+        if not g:
+            return "&&".join(["!(%s)" % x for x in guards] + ["(%s)" % cond]) if guards else cond
+        guards.append(cond)
+        pos = end + 1 + g.end()
+
+
 # ---------------------------------------------------------------- decision expressions
 class Dec:
     """translate a C++ boolean expression into Gallina, given a vocabulary
@@ -432,7 +449,7 @@ def facts():
     def prober_conflict():
         b = func_body(prober, r"void\s+ProberPrivate::onMessageReceived\s*\(")
         loop = b[b.index("for"):]
-        cond = nth_cond(loop, "if", 0)
+        cond = guarded_first_cond(loop)
         return Dec(cond, merge(rec_vocab("record", "r"), rec_vocab("proposedRecord", "proposed"))).parse()
 
     decision("prober_conflict", "(r proposed : record)",
@@ -441,7 +458,7 @@ def facts():
     def hostname_conflict():
         b = func_body(hostname, r"void\s+HostnamePrivate::onMessageReceived\s*\(")
         loop = b[b.index("for"):]
-        cond = nth_cond(loop, "if", 0)
+        cond = guarded_first_cond(loop)
         return Dec(cond, merge(rec_vocab("record", "r"), {"hostname": ("(Some hostname)", "bstr")})).parse()
 
     decision("hostname_conflict", "(r : record) (hostname : list N)",
@@ -453,7 +470,7 @@ def facts():
         k = b.index("else")
         loop = b[k:]
         loop = loop[loop.index("for"):]
-        cond = nth_cond(loop, "if", 0)
+        cond = guarded_first_cond(loop)
         return Dec(cond, merge(query_vocab("query", "q"), {"hostname": ("(Some hostname)", "bstr")})).parse()
 
     decision("hostname_question", "(q : query) (hostname : list N)",
@@ -463,7 +480,7 @@ def facts():
     def resolver_filter():
         b = func_body(resolver, r"void\s+ResolverPrivate::onMessageReceived\s*\(")
         loop = b[b.index("for"):]
-        cond = nth_cond(loop, "if", 0)
+        cond = guarded_first_cond(loop)
         return Dec(cond, merge(rec_vocab("record", "r"), {"name": ("name", "bstr")})).parse()
 
     decision("resolver_filter", "(r : record) (name : bstr)",
